@@ -112,4 +112,4 @@ def run_options(ctx, res):
                     label, langs, [sizes[l] for l in langs], dname,
                     (", reader raised %s" % impl.ERR_NAMES.get(rd.code, rd.code)) if isinstance(rd, Err) else ""),
                 "input": repr({l: [(c.start, c.end, c.get_text()) for c in cs.get_captions(l)] for l in langs}),
-                "document": doc if len(doc) < 4000 else doc[:4000], "replay": "own", "stream": "I"})
+                "document": doc, "replay": "own", "stream": "I"})
